@@ -265,6 +265,13 @@ def r_traverse(idx, rep):
     if len(loops) != 1:
         raise AnalysisError("query_overlap: expected exactly one while loop, found %d" % len(loops))
     loop = loops[0]
+    # the traversal is the ONLY place where the query decides anything: no return before the loop (a pre-filter on the query box
+    # - 'empty', 'inverted', 'too small' - answers for boxes the closed-interval predicate would have matched)
+    early = [st for st in f.node.body if st is not loop and st.lineno < loop.lineno and any(isinstance(x, ast.Return) for x in ast.walk(st))]
+    rep.check(not early, rule, fk + "|no exit before the traversal", "%s:%d" % (f.module.relpath, (early[0].lineno if early else loop.lineno)),
+              "query_overlap returns before the traversal when `%s`: degenerate but valid query boxes (flat, segment, point: lo == hi on an axis) overlap stored boxes "
+              "under the closed-interval test and must be answered by the traversal" % (u(early[0].test) if early and isinstance(early[0], ast.If) else (u(early[0])[:80] if early else "")),
+              "single exit")
     # which list is the stack: the one compared in the loop test
     stackname = None
     for n in ast.walk(loop.test):
